@@ -4,6 +4,7 @@ import (
 	"fmt"
 	"strings"
 
+	"github.com/vedadiyan/genql"
 	"verif/harness/core"
 	"verif/harness/gq"
 )
@@ -180,6 +181,7 @@ func (p *c08) RunCase(i int) *core.CaseResult {
 	} else if strings.Contains(q, " AS ") {
 		shape = "filter+projection"
 	}
+	genql.VerifResetSelectorCache()
 	for _, m := range p.docs {
 		var flat []any
 		want, ok := p.expected(r, q, m, &flat)
@@ -209,6 +211,20 @@ func (p *c08) RunCase(i int) *core.CaseResult {
 			r.Nontrivial = true
 		}
 		r.Outcomes = append(r.Outcomes, fmt.Sprintf("depth%d/%d", depthOf(m), len(flat)))
+		// selector-cache differential: the nested and the mix=> spelling of the same source are
+		// evaluated alternately in one process; neither may change what the other returns
+		if got == w {
+			other := strings.ReplaceAll(q, "{T}", "`mix=>m`")
+			if mix {
+				other = strings.ReplaceAll(q, "{T}", "m")
+			}
+			gq.Run(map[string]any{"m": gq.Clone(any(m))}, other)
+			again := outcome(gq.Run(map[string]any{"m": gq.Clone(any(m))}, sql))
+			r.Execs += 2
+			if again != got {
+				r.Fail("C08|cache|nested-and-mix-interfere", fmt.Sprintf("%s on m=%s returned %s, but %s after %s had been evaluated in the same process", sql, gq.Render(m), got, again, other), map[string]any{"sql": sql, "then": other, "doc": map[string]any{"m": m}})
+			}
+		}
 		if got != w {
 			kind := "nested"
 			if mix {
